@@ -213,9 +213,11 @@ def leaf_for(draw, edesc):
             v = tuple(edesc[src]) if src != "other" else draw(_SMALL_VEC)
             t, v = _lit(v)
             op = draw(st.sampled_from(["==", "==", "!=", "<", ">=", "^="]))
+            # (the member that holds the sub-structure may be named, or matched by a pattern that also matches members without one)
+            var = draw(st.sampled_from(["ObjectData", "ObjectData", "*", "*Data", "O*"]))
             if draw(st.integers(0, 5)) == 0:
-                return ("bare", "ObjectUpdate.ObjectData.ObjectData." + part)
-            return ("cmp", (draw(st.sampled_from(["ObjectUpdate", "*"])), "ObjectData", "ObjectData", part), op, t, v)
+                return ("bare", "ObjectUpdate.ObjectData.%s.%s" % (var, part))
+            return ("cmp", (draw(st.sampled_from(["ObjectUpdate", "*"])), "ObjectData", var, part), op, t, v)
         return ("cmp", ("ObjectUpdate", "ObjectData", draw(st.sampled_from(["ID", "ParentID", "*"]))), draw(st.sampled_from(OPS)), *_lit(draw(st.sampled_from([edesc["id"], 0, 7]))))
     if kind in ("LLUDP", "frozen", "frozen_unparsed"):
         name = edesc["case"]["name"]
@@ -478,7 +480,7 @@ def filter_laws(ctx, case):
             if ctx is not None:
                 ctx.count("leaf_ref_checked")
             if ref != per_sc[0]:
-                out.append(("leaf-truth:%s" % leaf[2], "leaf %r on %s: filter says %s, independent evaluation says %s" % (text, entry.name, per_sc[0], ref)))
+                out.append(("leaf-truth:%s" % (leaf[2] if leaf[0] == "cmp" else "bare"), "leaf %r on %s: filter says %s, independent evaluation says %s" % (text, entry.name, per_sc[0], ref)))
         if leaf[0] == "cmp" and leaf[2] not in ("==", "!=") and ctx is not None:
             ctx.count("leaf_errors_possible")
     if out:
